@@ -29,7 +29,7 @@ pub static DEF: PropDef = PropDef {
     run,
     real: &["wirefilter Type/CompoundType/Scheme serde", "wirefilter_ffi::CType conversions and wirefilter_create_*_type", "serde_json"],
     stub: &["byte source (FaultyReader over an in-memory document)"],
-    assumptions: &["serde_json and std::io adapters are the transport and are trusted", "reference model of the packed form: layer i (outermost = 0) is bit i, 1 = Map"],
+    assumptions: &["serde_json and std::io adapters are the transport and are trusted", "reference model of the packed form: layer i (outermost = 0) is bit i, 1 = Map (the C ABI's CType exposes exactly this)", "the JSON syntax of types ({\"Array\": T}, {\"Map\": T}, primitive names) and of schemes ({name: {type, optional}}) is the wire format and is taken as given: a change of syntax that still round-trips would be reported"],
     required_probes: &["fault.eintr", "fault.eof", "fault.ioerr", "mut.dup", "mut.reorder", "mut.deepen", "entry.value-tree", "entry.from_reader", "producer.capi"],
     extra: None,
 };
